@@ -193,7 +193,7 @@ CHECKS["C09"] = {
     "technique": "TLA+ WireCanon.tla (Valid / Value / Canonical over abstract protobuf serialisations) checked by TLC; its table replayed into the real canonical_raw (T3); seeded encode/decode/normalise round trips of the public message types",
     "text": "PARTIAL. Decided: the canonical form of every bounded serialisation of a schema covering all field shapes (uniqueness, idempotence, value preservation "
             "on the spec; byte equality with the real canonical_raw). Sampled: losslessness and byte agreement for seeded values of 12 public wire/storage types, "
-            "including alternative valid serialisations.",
+            "including alternative valid serialisations (field order, packed / unpacked, non-minimal varints).",
     "note": "Not decided: 'all values of all types' (byte-level fidelity is outside what a TLA+ model enumerates); crate-private RPC/handshake types; build-time schema checks. One defect found by this check was repaired.",
     "design_ref": "§7 C09, §9",
 }
